@@ -1151,3 +1151,87 @@ def negative_chain(draw, ver):
     else:
         toks = it + [outer[1], TYPEOPS[outer[1]]] + _type_tokens(outer[3], outer[4])
     return {'toks': [str(t) for t in toks], 'cls': f'{op_class(inner)}~{op_class(outer)}'}
+
+
+# --------------------------------------------------------------------------
+# Token-level mutations and random strings (C03)
+# --------------------------------------------------------------------------
+SPLICES = ['Q{u}a', 'Q{', '?', '=>', '!', '#', '#1', '(:', ':)', '(', ')', '[', ']', '{', '}', '$', '@', '::', ':', ':=', ',',
+           '/', '//', '..', '.', '*', '|', '||', '-', '+', '=', '!=', '<', '<<', '>>', '>=', "'", '"', '``', '1', '1.', '.5',
+           '1e', '1e400', '0', '-0', '()', '[]', '{}', 'map{', 'array{', '[1', 'map', 'array', 'function', 'function(',
+           'empty-sequence()', 'item()', 'node()', 'text()', 'element(', 'attribute(', 'attribute::', 'xs:integer',
+           'xs:QName', 'xs:NOTATION', 'xs:anyAtomicType', 'fn:', 'xs:', 'err:', 'p:a', '*:a', 'a:*', 'true()', 'position()',
+           'last()', 'current()', 'abs#1', 'concat#99', 'Q{http://www.w3.org/2005/xpath-functions}abs', '$v', '$nope', '$f(',
+           '?1', '?*', '?(', '=> abs()', '=> $f()', '! .', 'ancestor::', 'namespace::', 'self::node()', ' ', ' ',
+           '퟿', '�', '\U0001F600', '\x00', '\x0b', '\t', '\n', '\\', '%', '&', '^', '~', ';', '`']
+KEYWORDS = ['and', 'or', 'div', 'mod', 'idiv', 'to', 'eq', 'ne', 'lt', 'le', 'gt', 'ge', 'is', 'union', 'intersect', 'except',
+            'instance', 'of', 'treat', 'as', 'cast', 'castable', 'if', 'then', 'else', 'for', 'in', 'return', 'some', 'every',
+            'satisfies', 'let', 'empty-sequence()', 'item()', 'node()']
+OTHER_KIND = {'int': ["'s'", '1.5', '1e0', '()', 'true()', '$v', 'a', '.', '[1]', 'map{}', 'abs#1'],
+              'name': ['1', "'s'", '1.5', '()', '$v', '.', '(1, 2)', '[1]', 'map{1:2}', 'text()', 'abs#1', 'function(){1}']}
+
+
+@st.composite
+def mutated(draw, toks):
+    """token list -> token list with 1-3 token-level mutations"""
+    toks = [str(t) for t in toks]
+    for _ in range(draw(st.sampled_from([1, 1, 1, 2, 3]))):
+        if not toks:
+            toks = [draw(st.sampled_from(SPLICES))]
+            continue
+        i = draw(st.integers(0, len(toks) - 1))
+        m = draw(st.integers(0, 9))
+        if m == 0:
+            del toks[i]
+        elif m == 1:
+            toks.insert(i, toks[i])
+        elif m == 2:
+            j = draw(st.integers(0, len(toks) - 1))
+            toks[i], toks[j] = toks[j], toks[i]
+        elif m == 3:
+            k = _kind(toks[i]) if toks[i] else 'punct'
+            pool = OTHER_KIND['int'] if k == 'num' else OTHER_KIND['name'] if k == 'name' else SPLICES
+            toks[i] = draw(st.sampled_from(pool))
+        elif m == 4:
+            toks[i] = draw(st.sampled_from(KEYWORDS))
+        elif m == 5:
+            toks.insert(i, draw(st.sampled_from(['(', ')', '[', ']', '{', '}', '(:', ':)', "'", '"'])))
+        elif m in (6, 7):
+            toks.insert(i, draw(st.sampled_from(SPLICES)))
+        elif m == 8:
+            toks[i] = draw(st.sampled_from(SPLICES))
+        else:
+            del toks[i:]
+    return toks
+
+
+_RAND_ALPHABET = list("()[]{}/@$*|!?#:=<>,.'\"-+ ") + list('abcdeftx019') + ['::', '//', ':=', '=>', '||', '(:', ':)', '..', 'Q{',
+                                                                              ' to ', ' div ', ' and ', ' or ', ' eq ',
+                                                                              'é', '̀', ' ', '\U0001F600', '\\', '\n']
+
+
+def random_string(max_len=40):
+    """random strings biased to XPath punctuation plus arbitrary unicode (integer runs stay short)"""
+    biased = st.lists(st.sampled_from(_RAND_ALPHABET), min_size=0, max_size=max_len).map(''.join)
+    anyuni = st.text(min_size=0, max_size=20)
+    mixed = st.lists(st.one_of(st.sampled_from(_RAND_ALPHABET), st.sampled_from(SPLICES), st.sampled_from(KEYWORDS),
+                               st.characters()), min_size=1, max_size=25).map(' '.join)
+    return st.one_of(biased, biased, mixed, anyuni)
+
+
+def nesting_depth(s):
+    """bracket depth + longest run of prefix operators: bound for the recursion a string can legitimately need"""
+    d = best = run = bestrun = 0
+    for ch in s:
+        if ch in '([{':
+            d += 1
+            best = max(best, d)
+        elif ch in ')]}':
+            d = max(0, d - 1)
+        if ch in '-+/@$?!:' or ch.isspace():
+            if not ch.isspace():
+                run += 1
+                bestrun = max(bestrun, run)
+        else:
+            run = 0
+    return best + bestrun
